@@ -455,11 +455,12 @@ def drop_unit(repo: Repo, chk: Check, rule: str = "C03.drop-unit", quals: tuple[
                            f"the map is changed beyond dropping unit dimensions (stores into the matrix: {altered[:2]}; bias: {bias_changed[:2]}): operands are "
                            "canonicalised one by one, so re-orienting a dimension for one operand changes the joint index tuples")
             var, _, pred, _ = fs[0]
-            keeps = {val: _abstract_eval(pred, var, val) for val in (None, 1, 2, 3, 10**9)}
-            ok = keeps[1] is False and all(keeps[k] in (True, None) for k in (2, 3, 10**9)) and keeps[None] in (True, None)
+            keeps = {val: _abstract_eval(pred, var, val) for val in (None, 0, 1, 2, 3, 10**9)}
+            ok = keeps[1] is False and all(keeps[k] in (True, None) for k in (0, 2, 3, 10**9)) and keeps[None] in (True, None)
             chk.result(ok, rule, f"{f.key}:only-unit", s.where(),
                        "the predicate rejects exactly bound == 1",
-                       f"the keep-predicate `{ast.unparse(pred)}` evaluates to {keeps} on None/1/2/3/large: it drops a dimension with more than one iteration")
+                       f"the keep-predicate `{ast.unparse(pred)}` evaluates to {keeps} on None/0/1/2/3/large: it drops a dimension that does not have exactly one iteration "
+                       "(a dynamic bound, an empty dimension, or one with several iterations)")
 
 
 # --------------------------------------------------------------------------- the iteration box handed to the scheduler
